@@ -46,8 +46,8 @@ let string_of_q (x : q) : string =
 (* exactly as written in the case file *)
 let raw_of_q (x : q) : string = Printf.sprintf "%d/%d" (int_of_z x.qnum) (int_of_pos x.qden)
 
-let sig_of_int = function 0 -> SRA | 1 -> SRA2 | 2 -> SRB | 3 -> SC | _ -> failwith "bad signal"
-let int_of_sig = function SRA -> 0 | SRA2 -> 1 | SRB -> 2 | SC -> 3
+let sig_of_int = function 0 -> SRA | 1 -> SRA2 | 2 -> SRB | 3 -> SC | 4 -> SPA | 5 -> SZ | 6 -> SCLO | 7 -> SCHI | _ -> failwith "bad signal"
+let int_of_sig = function SRA -> 0 | SRA2 -> 1 | SRB -> 2 | SC -> 3 | SPA -> 4 | SZ -> 5 | SCLO -> 6 | SCHI -> 7
 let mask_of_int m = List.filter_map (fun i -> if m land (1 lsl i) <> 0 then Some (sig_of_int i) else None) [0; 1; 2; 3]
 let int_of_mask l = List.fold_left (fun a s -> a lor (1 lsl int_of_sig s)) 0 l
 let clk_of_char = function '0' -> CA | '1' -> CB | _ -> failwith "bad clock"
@@ -61,7 +61,7 @@ let parse_step (t : string) : step =
   | 'K' -> if t.[1] >= '2' then SWaitX (nat_of_int (Char.code t.[1] - Char.code '2'), phase_of_char t.[2])
            else SWaitClk (clk_of_char t.[1], phase_of_char t.[2])
   | 'T' -> SWaitFor (uq_of_string rest)
-  | 'H' -> SWaitChange (mask_of_int (int_of_string rest))
+  | 'H' -> SWaitChange (if rest = "-" then [] else List.map (fun x -> sig_of_int (int_of_string x)) (String.split_on_char '.' rest))
   | 'S' -> SWaitStable
   | 'R' -> SRead (sig_of_int (int_of_string rest))
   | 'W' ->
@@ -75,7 +75,7 @@ let parse_step (t : string) : step =
 let string_of_wake = function
   | WkClk (c, ph) -> Printf.sprintf "K%c%c" (char_of_clk c) (char_of_phase ph)
   | WkFor (n, d) -> Printf.sprintf "T%d/%d" (int_of_n n) (int_of_pos d)
-  | WkChange m -> Printf.sprintf "H%d" (int_of_mask m)
+  | WkChange m -> if m = [] then "H-" else "H" ^ String.concat "." (List.map (fun x -> string_of_int (int_of_sig x)) m)
   | WkX (i, ph) -> Printf.sprintf "K%d%c" (int_of_nat i + 2) (char_of_phase ph)
   | WkStable -> "S"
   | WkJoin k -> Printf.sprintf "J%d" (int_of_nat k)
